@@ -499,6 +499,7 @@ class Engine:
         if s.startswith('const '): return (2, s[6:])
         if s.startswith('no_retag '): return self.compile_operand(fn, s[9:])
         if self.resolve(s) is not None: return (3, s)
+        if re.match(r'^(<.*>|[\w:]+)::\w+(::<.*>)?$', s): return (3, s)      # fn item without MIR (library function passed as a value)
         raise Unsupported('operand ' + s)
 
     def ev(self, fr, fn, o):
@@ -860,6 +861,9 @@ class Engine:
                     # several impls of a generic trait for one type (From<A>, From<B>): match on the parameter type
                     tparam = re.search(r'<(.*)>$', parts[1].strip())
                     if tparam:
+                        def norm(t): return re.sub(r"'\w+ ", '', re.sub(r'(\w+::)+', '', t)).replace(' ', '')
+                        hits = [f for f in cands if f.params and norm(f.params[0][1]) == norm(tparam.group(1))]
+                        if len(hits) == 1: return hits[0]
                         want = strip_generics(tparam.group(1)).replace(' ', '').split('::')[-1]
                         for f in cands:
                             pty = strip_generics(f.params[0][1]).replace(' ', '').split('::')[-1] if f.params else ''
